@@ -720,6 +720,18 @@ func uniqueKeySource(info *types.Info, p *packages.Package, b bodyInfo, e ast.Ex
 				}
 			}
 		}
+		// a key function of the package whose body is a single `return <expression>`: the expression is judged there
+		if fn.Pkg() == p.Types {
+			for _, kfd := range allFuncDecls(p) {
+				if info.Defs[kfd.Name] != types.Object(fn) || kfd.Body == nil || len(kfd.Body.List) != 1 {
+					continue
+				}
+				if ret, ok := kfd.Body.List[0].(*ast.ReturnStmt); ok && len(ret.Results) == 1 {
+					okKey, why := uniqueKeySource(info, p, bodyInfo{Decl: kfd, Body: kfd.Body}, ret.Results[0], depth+1)
+					return okKey, why + " (returned by " + fn.Name() + ")"
+				}
+			}
+		}
 		return false, "the result of " + full + ", which is not a never-repeating counter"
 	case *ast.UnaryExpr:
 		if e.Op == token.AND {
